@@ -147,6 +147,12 @@ PROPS = {
         assumptions=['valid programs only: the generators avoid usage errors (past at= dates, negative delays, inverting a Moment)'],
         partial=['truth_at_resume and no-lost-wake-up are not proved on the machine: judge + correspondence only (F8: false for nested connectives)'],
     ),
+    'C14': dict(
+        gen=['Ticker', 'Timing'], props=['C14', 'Skeletons'], model=['Machine/Run', 'Judge/Judges'], harness='c14',
+        trusted_base=KERNEL_TB + MACHINE_TB + ['translated from source: the step arithmetic and branch order of interval(); template: delay(), suspend/postpone'],
+        assumptions=['suspend(d) resumes at now + d and postpone() in the same time step (C01 theorems)', 'exact rational time'],
+        partial=[],
+    ),
 }
 
 #: texts for MANIFEST.json (level, note, technique, DESIGN.md section)
@@ -277,4 +283,14 @@ MANIFEST_TEXT = {
         note='trusted: Lean kernel + standard axioms; templates/translator; whole-machine model tied by exact traces; truth_at_resume and no-lost-wake-up are not proved on the machine: judge + correspondence only (F8: false for nested connectives)',
         technique='Lean 4 theorems (decision logic / per-primitive / frame level) + exact whole-machine differential traces + Lean trace judge',
         design_ref='6 (C08), 3, 4.B'),
+    'C14': dict(
+        level='Lean 4 theorems over the step arithmetic of interval()/delay() translated from timing.py on every run: '
+              'interval_exceeded_iff, interval_next_tick, interval_grid (tick k at start + k*p for every sequence of body durations '
+              '<= p, by induction), interval_first_tick, delay_gap, every non-raising step hibernates (yields), negative_rejected. '
+              'Exact whole-machine correspondence on ticker programs (periods incl. 0, durations shorter/equal/longer, nested in '
+              'until, next to other tickers); Lean judge on implementation traces (grid, gaps, IntervalExceeded only after an '
+              'over-long body, a hibernation between iterations).',
+        note='trusted: Lean kernel + standard axioms; translator; C01 for the meaning of suspend/postpone',
+        technique='Lean 4 arithmetic induction over translated code + exact whole-machine differential traces + Lean trace judge',
+        design_ref='6 (C14)'),
 }
